@@ -35,3 +35,20 @@ Proof.
   - apply Nat.ltb_lt in E1. lia.
   - apply Nat.ltb_ge in E1. lia.
 Qed.
+
+(* the run's status as the fold of the rank comparison of the current source over the workers' statuses *)
+From VProofs Require Import MultiProofs.
+Lemma src_final_status : forall results : list (Z * string),
+  (forall r, In r results -> In (fst r) ranked_return_codes) ->
+  final_status results = fold_left (fun ret r => src_rank_update ret (fst r)) results exit_GOOD.
+Proof.
+  intros results. unfold final_status.
+  assert (G: forall ret, In ret ranked_return_codes -> (forall r, In r results -> In (fst r) ranked_return_codes) ->
+             fold_left (fun ret r => merge ret (fst r)) results ret = fold_left (fun ret r => src_rank_update ret (fst r)) results ret).
+  { induction results as [|x xs IH]; intros ret Hr Hall; [reflexivity|]. cbn [fold_left].
+    assert (Hx: In (fst x) ranked_return_codes) by (apply Hall; left; reflexivity).
+    rewrite <- (tie_rank_update ret (fst x) Hr Hx). apply IH.
+    - unfold merge. destruct (Nat.ltb (rank ret) (rank (fst x))); assumption.
+    - intros r Hin. apply Hall. right. exact Hin. }
+  intros Hall. apply G; [|exact Hall]. cbn. tauto.
+Qed.
